@@ -65,6 +65,9 @@ OTHER_ITEMS = [
     "impl Tr for X { fn no_params() {} }", "impl Tr for X { fn with_self(&self) {} }", "impl Tr for X {}",
     "impl Tr for X { fn a(d: &impl A) {} fn b<D: B>(d: &D) {} const C: u8 = 1; }", "impl<'a> Tr for &'a X { fn a(d: &impl Sized) {} }",
     "impl Tr for X where X: Sized { fn a(d: &impl Sized) {} }",
+    # generic argument lists on the trait of the block: empty, turbofish-style, with arguments, parenthesised, on an earlier segment
+    "impl Tr<> for X { fn a(d: &impl Sized) {} }", "impl Tr::<> for X { fn a<D>(d: &D) {} }", "impl Tr<u8> for X { fn a(d: &impl Sized) {} }",
+    "impl<'a, T> path::Tr<'a, T> for X { fn a(d: &impl Sized) {} }", "impl Fn(u8) -> u8 for X {}", "impl outer::<u8>::Tr for X { fn a(d: &impl Sized) {} }",
 ]
 
 PINNED = [
@@ -98,6 +101,8 @@ PINNED = [
     ("unsupported_export_on_impl", "#[::entrait::entrait(\n/*@off*/ export\n)]\nimpl T for X {}", r"Unsupported option"),
     ("unsupported_send_on_impl", "#[::entrait::entrait(ref ?\n/*@off*/ Send\n)]\nimpl T for X {}", r"Unsupported option"),
     ("unsupported_mock_api_on_impl", "#[::entrait::entrait(\n/*@off*/ mock_api = M\n)]\nimpl T for X {}", r"Unsupported option"),
+    ("empty_generic_args_on_impl_trait", "#[::entrait::entrait]\nimpl T\n/*@off*/ <>\n for X { fn f(d: &impl Sized) {} }", r"Generic arguments are not supported"),
+    ("generic_args_on_impl_trait", "#[::entrait::entrait(ref)]\nimpl some::T\n/*@off*/ ::<u8>\n for X { fn f(d: &impl Sized) {} }", r"Generic arguments are not supported"),
     ("unsupported_nodeps_on_trait_with_target", "#[::entrait::entrait(TImpl, delegate_by = DelegateT,\n/*@off*/ no_deps\n = false)]\ntrait T {}", r"Unsupported option"),
 ]
 
